@@ -12,7 +12,7 @@ from .guardlib import gval, comparisons, lt_true, ge_true
 
 MANIFEST = {
     "text": "Transcription, table and sibling-agreement rules for the tree builder. (a) The rows of all 21 insertion modes: for every (mode, token class) and every valuation of the conditions either side tests, the steps the code performs (one helper call = one step of the standard) equal an independent transcription of the standard's paragraphs (R02.11, 515 rows); the tag dispatch groups names exactly as the standard's paragraphs do (R02.8); foreign-content rows and foreign element insertion (R02.12); 'reset the insertion mode' (R02.10). (b) Tables: the standard's name sets and limits (implied end tags, scopes incl. their MathML/SVG members, special category's foreign members, table contexts, integration points, formatting elements, break-out list, text-mode elements; 8/3/3), the five quirks-mode identifier tables and their decision order, the SVG/MathML/foreign adjustment tables (value sets equal the standard's, key = lower-cased value, injective) (R02.1, R02.2, R02.9). (c) Sibling agreement of the element -> tokenizer-state map (R02.3); set_quirks_mode call sites (R02.5); scope choices (R02.7). (d) Every function of tree_builder/ equals its reviewed normal form (R02.4, R02.6).",
-    "note": "Decides R02.1-R02.12. NOT decided: that the helpers (adoption agency, reconstruction, foster parenting, implied-end-tag and scope loops) equal the standard's algorithms - R02.6 only says they still equal the normal forms I read; the rows rewritten by the customizable-select revision and the HTML part of the special category are not transcribed (uncertain memory). Authority of the transcriptions: my memory of the standard; five defects they found were reproduced against the real crates and fixed. Also decided: Noah's Ark removes the earliest of three equal entries (R02.1). Also decided: the whitespace predicates are exactly ASCII whitespace (R02.13); the special category has every certainly-special HTML name (R02.1). Round 6: R02.15 decides the helper algorithms as facts (in scope, implied end tags, pop until, appropriate place / foster parenting, any other end tag, clear to marker, close the cell, reconstruct formatting, marker-bounded searches, misnested a, adoption agency bail-outs and placements) - the NOT-decided remark above now applies only to the parts of those helpers R02.15 does not name (adoption agency inner loop steps 13.x, insert_element's form/shadow details); R02.9 HTML 4.01 clause tests only the absence of the system identifier. Round 7: R02.15 also is_marker_or_open (whole stack), ignore-LF flag lives for one token, insert an element / insert_at, adoption agency inner loop.",
+    "note": "Decides R02.1-R02.12. NOT decided: that the helpers (adoption agency, reconstruction, foster parenting, implied-end-tag and scope loops) equal the standard's algorithms - R02.6 only says they still equal the normal forms I read; the rows rewritten by the customizable-select revision and the HTML part of the special category are not transcribed (uncertain memory). Authority of the transcriptions: my memory of the standard; five defects they found were reproduced against the real crates and fixed. Also decided: Noah's Ark removes the earliest of three equal entries (R02.1). Also decided: the whitespace predicates are exactly ASCII whitespace (R02.13); the special category has every certainly-special HTML name (R02.1). Round 6: R02.15 decides the helper algorithms as facts (in scope, implied end tags, pop until, appropriate place / foster parenting, any other end tag, clear to marker, close the cell, reconstruct formatting, marker-bounded searches, misnested a, adoption agency bail-outs and placements) - the NOT-decided remark above now applies only to the parts of those helpers R02.15 does not name (adoption agency inner loop steps 13.x, insert_element's form/shadow details); R02.9 HTML 4.01 clause tests only the absence of the system identifier. Round 7: R02.15 also is_marker_or_open (whole stack), ignore-LF flag lives for one token, insert an element / insert_at, adoption agency inner loop. Round 8: the in-table-body tag set is the standard's tbody/thead/tfoot (F26, R02.1), the foreign-content breakout stops at annotation-xml integration points (F27, R02.15), input type=hidden is compared ASCII case-insensitively (R02.15), a path of reset_insertion_mode that took the context element is a 'last' path (R02.10).",
     "technique": "independent transcription of the standard's rows / dispatch / tables compared with decision trees extracted from the source; reviewed normal-form comparison for the helpers",
 }
 LEVEL = "other"
